@@ -33,3 +33,18 @@ package service
 //@   modifies bal, contexts
 //@   ensures deposit_escrow_kept: forall d:Str :: bal(keeper.DEP, d) >= old(bal(keeper.DEP, d))
 //@ end
+
+// Genesis export (C12, C07): every service definition and EVERY binding - available or disabled, with whatever deposit -
+// is exported as stored (a binding left out would strand its deposit in the escrow of the restarted chain).
+//@ func ExportGenesis(ctx, k)
+//@   property C07, C12
+//@   returns gs
+//@   invariant @IterateServiceDefinitions #1 pos: 0 <= it_idx && it_idx <= it_n
+//@   invariant @IterateServiceBindings #1 pos:    0 <= it_idx && it_idx <= it_n
+//@   invariant @IterateServiceBindings #1 listed: forall j:Int :: 0 <= j && j < it_idx ==> (exists m:Int :: 0 <= m && m < len(l_bindings) && l_bindings[m] == get(bindings, it_seq[j].k0, it_seq[j].k1))
+//@   invariant @IterateWithdrawAddresses #1 pos:  0 <= it_idx && it_idx <= it_n
+//@   invariant @IterateWithdrawAddresses #1 keep: forall s:Str :: forall p:Bytes :: has(bindings, s, p) ==> (exists m:Int :: 0 <= m && m < len(l_bindings) && l_bindings[m] == get(bindings, s, p))
+//@   invariant @IterateRequestContexts #1 pos:    0 <= it_idx && it_idx <= it_n
+//@   invariant @IterateRequestContexts #1 keep:   forall s:Str :: forall p:Bytes :: has(bindings, s, p) ==> (exists m:Int :: 0 <= m && m < len(l_bindings) && l_bindings[m] == get(bindings, s, p))
+//@   ensures every_binding: forall s:Str :: forall p:Bytes :: has(bindings, s, p) ==> (exists m:Int :: 0 <= m && m < len(gs.Bindings) && gs.Bindings[m] == get(bindings, s, p))
+//@ end
